@@ -144,6 +144,25 @@ CHECKS.update({
         "DESIGN.md section 3, C09"),
 })
 
+CHECKS.update({
+    "C05": (
+        "model_checking",
+        "exhaustive product exploration document pairs x policy vectors "
+        "against a plain-data reference merge and an expected-error table",
+        "All ordered pairs of the merge corpus (maps, lists, Arrays-of-Hashes "
+        "with and without identity keys, sets, scalars, empty containers, "
+        "every pair of kinds clashing under one key) x policy vectors (quick: "
+        "an all-pairs covering subset of the 180; thorough: all 180 x 5 "
+        "rule/key overrides); the real Merger's result must equal the "
+        "reference merge as data, keep the relative key orders, and raise "
+        "MergeException exactly where the merge is structurally impossible.",
+        "cases the option documentation leaves open (scalar over a container "
+        "under a key, null values, duplicates within the right-hand array "
+        "under unique, set/array/scalar conversions at the root under "
+        "left/right) are counted as unspecified: only 'no crash' there",
+        "DESIGN.md section 3, C05"),
+})
+
 NOT_YET = {
 }
 
